@@ -21,6 +21,7 @@ package main
 
 import (
 	"bufio"
+	"bytes"
 	"encoding/binary"
 	"encoding/hex"
 	"errors"
@@ -33,7 +34,7 @@ import (
 )
 
 func init() {
-	components["wsdecode"] = &component{gen: wsdecodeGen, enum: wsdecodeEnum, run: wsdecodeRun}
+	components["wsdecode"] = &component{gen: wsdecodeGen, enum: wsdecodeEnum, run: wsdecodeRun, direct: wsdecodeDirect}
 }
 
 func wsdHex(b []byte) string {
@@ -432,4 +433,91 @@ func wsdShowFrame(f websocket.Frame) string {
 	}
 	return fmt.Sprintf("%d %d %d %d %d %d %s %d %s", b2i(f.IsFIN()), b2i(f.IsRSV1()), b2i(f.IsRSV2()), b2i(f.IsRSV3()),
 		int(f.Opcode()), b2i(f.IsMasked()), wsdHex(f.Mask()), len(f), wsdHex(f.Payload()))
+}
+
+// wsdecodeDirect: a consumer that keeps every decoded frame in the source buffer's save area (src.Save(len(frame)) after each
+// Decode) — the model of the decoder has no save area, so this usage is checked here against the generator's own frame
+// list: every frame is yielded once, byte-identical, in order; with nothing more received the decoder asks for more and
+// invents nothing; the saved frames stay intact.
+func wsdecodeDirect(seed uint64, tier string, args []string, w *bufio.Writer) {
+	trials := 400
+	if tier == "thorough" {
+		trials = 6000
+	}
+	r := newRng(seed*977 + 5)
+	fails := 0
+	fail := func(key, format string, a ...any) {
+		fails++
+		fmt.Fprintf(w, "DIRECT-FAIL key=wsdecode.%s %s\n", key, fmt.Sprintf(format, a...))
+	}
+	for t := 0; t < trials && fails < 3; t++ {
+		func() {
+			defer func() {
+				if p := recover(); p != nil {
+					fail("panic", "decoder over a buffer with saved frames panicked: %v", p)
+				}
+			}()
+			max := r.pick(125, 200, 300, 1000)
+			src := sonic.NewByteBuffer()
+			if r.intn(2) == 0 {
+				src.Reserve(4096)
+			}
+			codec := websocket.NewFrameCodec(src, sonic.NewByteBuffer(), max)
+			var frames [][]byte
+			var wire []byte
+			for i, n := 0, 1+r.intn(5); i < n; i++ {
+				g := wsdGenFrame{b0: byte(0x80*r.intn(2) | r.pick(0, 1, 2, 9, 10)), masked: r.intn(2) == 0}
+				copy(g.mask[:], r.bytes(4))
+				g.declLen = uint64(minInt(r.pick(0, 1, 2, 5, 125, 126, 127, max), max))
+				g.body = int(g.declLen)
+				if g.declLen > 125 {
+					g.form = 1
+				}
+				b := g.bytes(r)
+				frames = append(frames, b)
+				wire = append(wire, b...)
+			}
+			segs := wsdecodeSplit(r, wire)
+			var slots []sonic.Slot
+			next := 0
+			for guard := 0; guard < 10*len(wire)+20; guard++ {
+				f, err := codec.Decode(src)
+				if err == nil && f != nil {
+					if next >= len(frames) || !bytes.Equal(f, frames[next]) {
+						fail("saved-frames", "frame %d yielded over a buffer with %d saved frames differs from what was received (got %d bytes %x…)", next, len(slots), len(f), f[:minInt(len(f), 8)])
+						return
+					}
+					next++
+					slots = append(slots, src.Save(len(f)))
+					continue
+				}
+				if !errors.Is(err, sonicerrors.ErrNeedMore) {
+					fail("saved-frames", "unexpected error %v after %d frames", err, next)
+					return
+				}
+				if len(segs) == 0 {
+					break
+				}
+				src.Write(segs[0])
+				segs = segs[1:]
+			}
+			if next != len(frames) {
+				fail("saved-frames", "%d of %d received frames were yielded", next, len(frames))
+				return
+			}
+			for i := 0; i < 3; i++ {
+				if f, err := codec.Decode(src); f != nil || !errors.Is(err, sonicerrors.ErrNeedMore) {
+					fail("saved-frames", "with nothing more received Decode returned a frame of %d bytes / %v", len(f), err)
+					return
+				}
+			}
+			for i, sl := range slots {
+				if !bytes.Equal(src.SavedSlot(sl), frames[i]) {
+					fail("saved-frames", "saved frame %d changed", i)
+					return
+				}
+			}
+		}()
+	}
+	fmt.Fprintf(w, "DIRECT-STAT {\"wsdecode_saved_frame_trials\": %d, \"wsdecode_saved_frame_failures\": %d}\n", trials, fails)
 }
